@@ -110,6 +110,12 @@ pub trait Property: Sync + Send {
     fn literalize(&self, case: &Self::Case, report: &Report) -> Self::Case;
     /// short description of a case for evidence samples
     fn sample(&self, case: &Self::Case, report: &Report) -> Value;
+    /// true for violation classes that are inherently probabilistic per run (the violated clause is
+    /// determinism itself): minimisation then demands 2 failures in 4 tries of a candidate and a replay
+    /// re-executes the recorded case up to 40 times
+    fn flaky_class(&self, _class: &str) -> bool {
+        false
+    }
     fn rule(&self) -> String;
     fn state_measure(&self) -> String;
     fn assumptions(&self) -> Vec<String>;
@@ -460,7 +466,16 @@ pub fn replay_case<P: Property>(p: &P, path: &Path) -> i32 {
             return 2;
         }
     };
-    let rep = p.run(&case);
+    let flaky = v.get("flaky").and_then(|x| x.as_bool()).unwrap_or(false);
+    let mut rep = p.run(&case);
+    let mut tries = 1;
+    while flaky && rep.violation.is_none() && tries < 40 {
+        rep = p.run(&case);
+        tries += 1;
+    }
+    if flaky {
+        println!("  (probabilistic violation class: {} execution(s) of the recorded case)", tries);
+    }
     if std::env::var("VERIF_REPLAY_VERBOSE").is_ok() {
         println!("{}", serde_json::to_string_pretty(&p.sample(&case, &rep)).unwrap());
         println!("counters: {:?}", rep.counters);
@@ -496,9 +511,36 @@ pub fn replay_case<P: Property>(p: &P, path: &Path) -> i32 {
     }
 }
 
+/// run a case; for a probabilistic class return a failing report only if it fails at least twice in four tries
+fn run_for<P: Property>(p: &P, case: &P::Case, class: &str, cause: &str, flaky: bool) -> Report {
+    let same = |r: &Report| r.violation.as_ref().map(|v| v.class == class && v.cause == cause).unwrap_or(false);
+    if !flaky {
+        return p.run(case);
+    }
+    let mut hits = 0;
+    let mut last_hit = None;
+    let mut last = Report::default();
+    for _ in 0..4 {
+        let r = p.run(case);
+        if same(&r) {
+            hits += 1;
+            last_hit = Some(r);
+        } else {
+            last = r;
+        }
+    }
+    if hits >= 2 {
+        last_hit.unwrap()
+    } else {
+        last.violation = None;
+        last
+    }
+}
+
 fn minimise<P: Property>(p: &P, case: &P::Case, class: &str, cause: &str) -> (P::Case, Report, u64) {
+    let flaky = p.flaky_class(class);
     let mut cur = case.clone();
-    let mut cur_rep = p.run(&cur);
+    let mut cur_rep = run_for(p, &cur, class, cause, flaky);
     let mut attempts = 0u64;
     let t0 = Instant::now();
     'outer: loop {
@@ -507,7 +549,7 @@ fn minimise<P: Property>(p: &P, case: &P::Case, class: &str, cause: &str) -> (P:
         }
         for cand in p.shrink(&cur) {
             attempts += 1;
-            let r = p.run(&cand);
+            let r = run_for(p, &cand, class, cause, flaky);
             if let Some(v) = &r.violation {
                 if v.class == class && v.cause == cause {
                     cur = cand;
@@ -874,7 +916,13 @@ pub fn check<P: Property>(p: &P, tier: Tier) -> i32 {
         let (bname, idx, v0) = &list[0];
         let cs = case_seed(seed, p.id(), bname, *idx);
         let case = p.gen(bname, *idx, cs);
-        let rep0 = p.run(&case);
+        let flaky = p.flaky_class(class);
+        let mut rep0 = p.run(&case);
+        let mut tries = 0;
+        while flaky && tries < 40 && rep0.violation.as_ref().map(|v| (&v.class, &v.cause)) != Some((class, cause)) {
+            rep0 = p.run(&case);
+            tries += 1;
+        }
         if rep0.violation.as_ref().map(|v| (&v.class, &v.cause)) != Some((class, cause)) {
             harness_error = Some(format!(
                 "violation {}/{} of run {}#{} did not reproduce in-process: {:?}",
@@ -883,7 +931,7 @@ pub fn check<P: Property>(p: &P, tier: Tier) -> i32 {
             continue;
         }
         let lit = p.literalize(&case, &rep0);
-        let lit_rep = p.run(&lit);
+        let lit_rep = run_for(p, &lit, class, cause, flaky);
         let start = if lit_rep.violation.as_ref().map(|v| (&v.class, &v.cause)) == Some((class, cause)) {
             lit
         } else {
@@ -893,14 +941,14 @@ pub fn check<P: Property>(p: &P, tier: Tier) -> i32 {
         let min_case = {
             // literal tape for the minimised case as well
             let l = p.literalize(&min_case, &min_rep);
-            let r = p.run(&l);
+            let r = run_for(p, &l, class, cause, flaky);
             if r.violation.as_ref().map(|v| (&v.class, &v.cause)) == Some((class, cause)) {
                 l
             } else {
                 min_case
             }
         };
-        let final_rep = p.run(&min_case);
+        let final_rep = if flaky { min_rep.clone() } else { p.run(&min_case) };
         let dir = verif_root().join("replays");
         let _ = std::fs::create_dir_all(&dir);
         let path = dir.join(format!(
@@ -915,6 +963,7 @@ pub fn check<P: Property>(p: &P, tier: Tier) -> i32 {
             "property": p.id(),
             "class": class,
             "cause": cause,
+            "flaky": flaky,
             "detail": final_rep.violation.as_ref().map(|v| v.detail.clone()).unwrap_or_default(),
             "first_detail": v0.detail,
             "seed": seed,
